@@ -287,7 +287,9 @@ pub fn random_table(rng: &mut Rng, n: usize, shared_cuts: bool) -> Table {
 
 /// structured families whose equivalent states are separated only by long words
 pub fn structured_table(rng: &mut Rng, thorough: bool) -> Table {
-    let maxn = if thorough { 40 } else { 16 };
+    // occasionally a long automaton (hundreds of states)
+    let long = rng.chance(1, 40);
+    let maxn = if long { 120 + rng.usize(200) } else if thorough { 40 } else { 16 };
     let kind = rng.below(6);
     let letters: Vec<(u32, u32)> = {
         let k = 2 + rng.usize(4);
